@@ -5,6 +5,15 @@ go 1.23.0
 require (
 	github.com/anishathalye/porcupine v1.3.0
 	github.com/platinummonkey/go-concurrency-limits v0.0.0
+	google.golang.org/grpc v1.71.1
+)
+
+require (
+	golang.org/x/net v0.38.0 // indirect
+	golang.org/x/sys v0.31.0 // indirect
+	golang.org/x/text v0.23.0 // indirect
+	google.golang.org/genproto/googleapis/rpc v0.0.0-20250115164207-1a7da9e5054f // indirect
+	google.golang.org/protobuf v1.36.4 // indirect
 )
 
 replace github.com/platinummonkey/go-concurrency-limits => /repo
